@@ -267,6 +267,16 @@ def _inside_iteration_over(lits, base):
     return False
 
 
+def _at_most_len(hi, lnform, depth=0):
+    """`hi` is the length `lnform` itself or a minimum one of whose operands is (`min(a.len(), b.len())` <= either)."""
+    hi = B.peel(hi)
+    if lnform is not None and B._len_term(hi) == lnform:
+        return True
+    if depth < 3 and hi.op == "call" and B.cname(hi) in ("core::min", "cmp::min", "Ord::min") and len(hi.a[1]) == 2:
+        return any(_at_most_len(z, lnform, depth + 1) for z in hi.a[1])
+    return False
+
+
 def _element_index_in_bounds(ix, lnform, lits):
     """`ix` is a position below the length `lnform` (a `B._len_term` form): an element of `0..len`, or a value a guard on
     the path compares as `ix < len`."""
@@ -281,8 +291,8 @@ def _element_index_in_bounds(ix, lnform, lits):
                 src = B.peel(src.a[1][0])
             if src.op == "agg" and src.a[0][0] == "adt" and src.a[0][1] == "Range" and len(src.a[1]) == 2:
                 lo_, hi_ = src.a[1]
-                if B._const_int(lo_) is not None and B._const_int(lo_) >= 0 and B._len_term(strip_sites(hi_)) == lnform:
-                    return ("range-index", "index ranges over %s..len of the indexed sequence" % B._const_int(lo_))
+                if B._const_int(lo_) is not None and B._const_int(lo_) >= 0 and _at_most_len(strip_sites(hi_), lnform):
+                    return ("range-index", "index ranges over %s..n with n <= len of the indexed sequence" % B._const_int(lo_))
     for atom, pol in lits:
         if atom[0] == "atom" and atom[1] == "cmp":
             op, x, y = atom[2], atom[3], atom[4]
@@ -503,6 +513,15 @@ def discharge(P, s):
                         if op == "Le" and _is_len_minus(y, buf, st) and _is_sum_of(en, st, x):
                             return ("len-guard", "dominated by L <= len(buf) - n for the slice buf[n..n+L]")
     if k == "call:index" and site is not None and len(site.args) == 2:
+        # `buf[..min(n, buf.len())]` / `buf[a..min(b, buf.len())]`: the end is clamped to the length
+        rg_ = B.peel(strip_sites(site.args[1]))
+        if rg_.op == "agg" and rg_.a[0][0] == "adt" and rg_.a[0][1] == "RangeTo" and len(rg_.a[1]) == 1:
+            e_ = B.peel(rg_.a[1][0])
+            if e_.op == "call" and B.cname(e_) in ("Ord::min", "core::min", "core::cmp::min", "cmp::min", "std::cmp::min") and len(e_.a[1]) == 2:
+                bl_ = B._len_term(T("len", strip_sites(B.peel(site.args[0]))))
+                if any(B._len_term(strip_sites(z)) == bl_ for z in e_.a[1]):
+                    return ("clamp", "the end of the range is min(.., len of the indexed buffer)")
+    if k == "call:index" and site is not None and len(site.args) == 2:
         # `v[i]` on a Vec / slice value with an element position
         buf_ = strip_sites(B.peel(site.args[0]))
         r = _element_index_in_bounds(strip_sites(site.args[1]), ("len", buf_), lits)
@@ -712,6 +731,18 @@ def _copy_len_ok(ev, f, b, dst, src, lits):
     if d.op == "call" and B.cname(d) == "AsMut::as_mut":
         inner = _unref(d.a[1][0])
         sp = B.peel(src)
+        # `&value[..min(n, value.len())]` under the guard n == value.len() is the whole of `value`
+        if sp.op == "call" and B.cname(sp) == "Index::index" and len(sp.a[1]) == 2 and B.peel(sp.a[1][0]).op == "param":
+            rg_ = B.peel(sp.a[1][1])
+            if rg_.op == "agg" and rg_.a[0][0] == "adt" and rg_.a[0][1] == "RangeTo":
+                e_ = B.peel(rg_.a[1][0])
+                if e_.op == "call" and B.cname(e_).split("::")[-1] == "min" and len(e_.a[1]) == 2:
+                    x_, y_ = (strip_sites(z) for z in e_.a[1])
+                    for atom, pol in lits:
+                        if atom[0] == "atom" and atom[1] == "cmp" and (atom[2] if pol else R._NEG[atom[2]]) == "Eq":
+                            u_, v_ = strip_sites(atom[3]), strip_sites(atom[4])
+                            if {B._len_term(u_), B._len_term(v_)} == {B._len_term(x_), B._len_term(y_)} and ("len", strip_sites(B.peel(sp.a[1][0]))) in (B._len_term(x_), B._len_term(y_)):
+                                sp = B.peel(sp.a[1][0])
         if inner.op == "call" and B.cname(inner) == "Default::default" and sp.op == "param":
             ty = f.locals[sp.a[0]]["ty"]
             if ty == "&[u8; N]":
@@ -773,6 +804,29 @@ def _interval_ok(P, f, ev, b, t, ops, lits):
                 op = atom[2] if pol else R._NEG[atom[2]]
                 if op == "Le" and atom[3] in o and atom[4].op == "field" and atom[4].a[0].op == "bin" and atom[4].a[0].a[0] == "SubWithOverflow" and atom[4].a[0].a[2] in o:
                     return ("interval", "n + L with L <= len - n cannot overflow")
+        # n + L under a guard L <= X - n (any spelling of the difference): then n + L <= X, a length
+        try:
+            lo_ = [_lin_of(x) for x in o]
+            if all(l is not None for l in lo_):
+                for atom, pol in lits:
+                    if atom[0] == "atom" and atom[1] == "cmp":
+                        op = atom[2] if pol else R._NEG[atom[2]]
+                        a3, a4 = atom[3], atom[4]
+                        if op in ("Ge", "Gt"):
+                            a3, a4, op = a4, a3, {"Ge": "Le", "Gt": "Lt"}[op]
+                        if op not in ("Le", "Lt"):
+                            continue
+                        l3, l4 = _lin_of(a3), _lin_of(a4)
+                        if l3 is None or l4 is None:
+                            continue
+                        # D = o0 + o1 - a3 + a4
+                        D = B._lin(("add", ("sub", ("add", B._unlin(lo_[0]), B._unlin(lo_[1])), B._unlin(l3)), B._unlin(l4)))
+                        if D is not None:
+                            vs = {k_: v_ for k_, v_ in D[1].items() if v_}
+                            if 0 <= D[0] <= 4096 and len(vs) == 1 and all(k_[0] == "len" and v_ == 1 for k_, v_ in vs.items()):
+                                return ("interval", "the sum is bounded by a length: a guard on the path gives n + L <= len(..)")
+        except Exception:
+            pass
         for x in o:
             other = o[1] if x is o[0] else o[0]
             om = B.peel(other)
@@ -1098,9 +1152,128 @@ def _fold_i8(ev, cond, t):
 NEGLIGIBLE_SUBJECTS = ("HashToPoint::hash_to_point", "HashToScalar::hash_to_scalar", "BlsSignatureProof::compute_y", "BlsSignCrypt::compute_w", "BlsElGamal::message_generator")
 
 
+def _lin_of(t):
+    try:
+        return B._lin(B.int_form(strip_sites(t)))
+    except Exception:
+        return None
+
+
+def _infeasible(lits, P=None):
+    """The literals that hold at a block contradict each other, so the block is never reached.  Decided on comparisons of
+    integer terms whose difference is the same linear combination (x < 32 false together with x >= 32 false; len <= n - k
+    together with k + len > n), on `is_empty(x)` as `len(x) == 0`, on `capacity(x) >= len(x)`, on the contract of
+    `Uint::peek` (n <= len), and on a flag test against the same flag read back through `unwrap_u8`."""
+    cons = {}  # variable part (frozenset of (atom, coef)) -> [lo, hi] for the value of the variable part
+
+    def add(lin, op):
+        # lin = (c, {atom: coef}) ; constraint  c + V  op  0
+        if lin is None:
+            return
+        c, vs = lin
+        vs = {k: v for k, v in vs.items() if v}
+        if not vs:
+            val = {"Lt": c < 0, "Le": c <= 0, "Gt": c > 0, "Ge": c >= 0, "Eq": c == 0, "Ne": c != 0}[op]
+            if not val:
+                cons["__false__"] = True
+            return
+        key = frozenset(vs.items())
+        neg = frozenset((k, -v) for k, v in vs.items())
+        if neg in cons and key not in cons:
+            key, c, op = neg, -c, {"Lt": "Gt", "Le": "Ge", "Gt": "Lt", "Ge": "Le", "Eq": "Eq", "Ne": "Ne"}[op]
+        lo, hi, ne = cons.setdefault(key, [None, None, set()])
+        # V op -c
+        b_ = -c
+        if op == "Lt":
+            hi = b_ - 1 if hi is None else min(hi, b_ - 1)
+        elif op == "Le":
+            hi = b_ if hi is None else min(hi, b_)
+        elif op == "Gt":
+            lo = b_ + 1 if lo is None else max(lo, b_ + 1)
+        elif op == "Ge":
+            lo = b_ if lo is None else max(lo, b_)
+        elif op == "Eq":
+            lo = b_ if lo is None else max(lo, b_)
+            hi = b_ if hi is None else min(hi, b_)
+        elif op == "Ne":
+            ne.add(b_)
+        cons[key] = [lo, hi, ne]
+
+    flags = {}
+    implicit = set()
+    for atom, pol in lits:
+        if atom[0] != "atom":
+            continue
+        if atom[1] == "cmp" and len(atom) >= 5:
+            op = atom[2] if pol else R._NEG[atom[2]]
+            x, y = atom[3], atom[4]
+            # flag read back as a byte: unwrap_u8(c) == 0  <=>  not c
+            for u, v in ((x, y), (y, x)):
+                up = B.peel(strip_sites(u))
+                if up.op == "call" and B.cname(up) == "Choice::unwrap_u8" and B._const_int(v) in (0, 1) and op in ("Eq", "Ne"):
+                    fm = G.formula(up.a[1][0], P)
+                    truth = (B._const_int(v) == 1) == (op == "Eq")
+                    for la, lp in G.literals(fm if truth else G.f_not(fm), True):
+                        flags.setdefault(la, set()).add(lp)
+            lx, ly = _lin_of(x), _lin_of(y)
+            if lx is not None and ly is not None:
+                d = B._lin(("sub", B._unlin(lx), B._unlin(ly)))
+                add(d, op)
+                for t_ in list(subterms(strip_sites(x))) + list(subterms(strip_sites(y))):
+                    implicit.add(t_)
+        elif atom[1] == "term" and atom[2].op == "call" and B.cname(atom[2]) in ("slice::<impl [T]>::is_empty", "Vec::<T, A>::is_empty") and len(atom[2].a[1]) == 1:
+            l = _lin_of(T("len", B.peel(strip_sites(atom[2].a[1][0]))))
+            add(l, "Eq" if pol else "Ne")
+        elif atom[1] in ("is_zero", "is_identity", "is_some", "eq") :
+            flags.setdefault(atom, set()).add(pol)
+    # facts that always hold
+    for t_ in implicit:
+        if t_.op == "call" and B.cname(t_) == "Vec::<T, A>::capacity" and len(t_.a[1]) == 1:
+            d = B._lin(("sub", ("t", t_), B.int_form(T("len", B.peel(t_.a[1][0])))))
+            add(d, "Ge")
+        if t_.op == "field" and t_.a[1] == "0" and t_.a[0].op == "downcast" and t_.a[0].a[1] == "Some":
+            pk = B.peel(t_.a[0].a[0])
+            if pk.op == "call" and B.cname(pk) == "Uint::peek" and pk.a[1]:
+                d = B._lin(("sub", ("t", t_), B.int_form(T("len", B.peel(pk.a[1][0])))))
+                add(d, "Le")
+    for t_ in implicit:
+        # the counter of `x.iter().enumerate()` stays below len(x)
+        if t_.op == "field" and t_.a[1] == "0" and t_.a[0].op == "field" and t_.a[0].a[1] == "0" and t_.a[0].a[0].op == "downcast" and t_.a[0].a[0].a[1] == "Some":
+            nx = B.peel(t_.a[0].a[0].a[0])
+            if nx.op == "call" and B.cname(nx) == "Iterator::next" and nx.a[1]:
+                src = B.peel(nx.a[1][0])
+                if src.op == "loop":
+                    src = B.peel(src.a[2])
+                if src.op == "call" and B.cname(src) == "Iterator::enumerate" and len(src.a[1]) == 1:
+                    base = B.peel(src.a[1][0])
+                    k_ = 0
+                    while base.op == "call" and len(base.a[1]) == 1 and B.cname(base) in ("slice::<impl [T]>::iter", "slice::<impl [T]>::iter_mut", "IntoIterator::into_iter", "Iterator::copied", "Iterator::cloned") and k_ < 4:
+                        base = B.peel(base.a[1][0])
+                        k_ += 1
+                    try:
+                        d = B._lin(("sub", ("t", t_), B.int_form(T("len", base))))
+                        add(d, "Lt")
+                    except Exception:
+                        pass
+    if cons.pop("__false__", False):
+        return True
+    for key, (lo, hi, ne) in cons.items():
+        if lo is not None and hi is not None and (lo > hi or (lo == hi and lo in ne)):
+            return True
+    for a_, ps in flags.items():
+        if len(ps) == 2:
+            return True
+    return False
+
+
 def _debug_assert_ok(P, f, ev, b, site, lits):
     """debug_assert_eq!(x.is_identity()/is_zero(), 0) where x is a hash output: negligible;
     debug_assert_eq!(a.len(), b.len()) where the two lengths are the same linear form: cannot fail."""
+    try:
+        if _infeasible(lits, P):
+            return ("restated-fact", "the assertion restates what the checks before it established: its failure branch contradicts the conditions that hold there")
+    except Exception:
+        pass
     for atom, pol in lits:
         if atom[0] == "atom" and atom[1] == "cmp" and ((atom[2] == "Eq" and not pol) or (atom[2] == "Ne" and pol)):
             try:
